@@ -88,13 +88,13 @@ Lemma app_nil_inv {A} (a b : list A) : a ++ b = [] -> a = [] /\ b = [].
 Proof. destruct a; cbn; [auto|discriminate]. Qed.
 
 Lemma dead_tables c : dead c ->
-  on_handshake_data c = None /\ on_connected c = None /\ datagram_received c = [] /\
+  on_handshake_data c = None /\ on_connected c = [] /\ datagram_received c = [] /\
   datagrams_unblocked c = [] /\ stream_opened c = ([], []) /\ stream_available c = ([], []) /\
   writable c = [] /\ readable c = [] /\ stopped c = [].
 Proof.
   intros [_ R]. unfold registered in R.
   repeat (apply app_nil_inv in R; let H := fresh "H" in destruct R as [H R]).
-  destruct (on_handshake_data c); [discriminate|]. destruct (on_connected c); [discriminate|].
+  destruct (on_handshake_data c); [discriminate|].
   destruct (stream_opened c) as [o1 o2]. destruct (stream_available c) as [a1 a2]. cbn in *. subst.
   unfold sm_wakers in *.
   destruct (writable c); [|discriminate]. destruct (readable c); [|discriminate].
@@ -102,7 +102,7 @@ Proof.
 Qed.
 
 Lemma dead_shape c : dead c ->
-  exists e b, c = mkconn (Some e) b None None [] [] ([], []) ([], []) [] [] [].
+  exists e b, c = mkconn (Some e) b [] None [] [] ([], []) ([], []) [] [] [].
 Proof.
   intros D. pose proof (dead_tables c D) as (T1 & T2 & T3 & T4 & T5 & T6 & T7 & T8 & T9).
   destruct D as [De _]. destruct c as [er co oc oh dr du so sa wr rd st]. cbn in *. subst.
@@ -121,7 +121,7 @@ Proof.
   - cbn. unfold dead. cbn. split; [split; [discriminate|reflexivity]|].
     split; [intros r H; discriminate H|intros ws H; inv H; reflexivity].
   - cbn [step].
-    set (c := mkconn (Some e) b None None [] [] ([], []) ([], []) [] [] []) in *.
+    set (c := mkconn (Some e) b [] None [] [] ([], []) ([], []) [] [] []) in *.
     pose proof (poll_after_error c e x w ready eq_refl) as (P1 & P2 & _).
     destruct (poll_waiter c x w ready) as [c1 r] eqn:P. cbn [fst snd] in *. subst c1.
     split; [exact D|]. split; [intros r0 H; inv H; exact P2|intros ws H; discriminate H].
@@ -166,7 +166,10 @@ Proof.
   all: try (apply in_or_app; right; left; reflexivity).
   all: try (rewrite pair_get_set_same; apply in_or_app; right; left; reflexivity).
   all: try (rewrite sm_get_insert_same; left; reflexivity).
-  all: rewrite Nat.eqb_refl; left; reflexivity.
+  all: try (rewrite Nat.eqb_refl; left; reflexivity).
+  all: destruct (existsb (Nat.eqb w) (on_connected c)) eqn:Ex;
+    [apply existsb_exists in Ex; destruct Ex as (w0 & I0 & E0); apply Nat.eqb_eq in E0; subst; exact I0
+    |apply in_or_app; right; left; reflexivity].
 Qed.
 
 (* the matching event wakes it *)
@@ -208,7 +211,7 @@ Qed.
 
 (* the queue tables never overwrite even within the same slot *)
 Lemma poll_queue_keeps c x w ready w' :
-  match x with WRecvDatagram | WSendDatagram | WOpen _ | WAccept _ => True | _ => False end ->
+  match x with WConnecting | WRecvDatagram | WSendDatagram | WOpen _ | WAccept _ => True | _ => False end ->
   In w' (lookup c x) -> In w' (lookup (fst (poll_waiter c x w ready)) x).
 Proof.
   destruct x; try contradiction; intros _ H; cbn; destruct (error c); try (destruct ready); cbn; auto.
